@@ -6,23 +6,26 @@ package authn
 // (id, secret) pairs with their deletion ages kept by the harness.
 
 //verif:property C36
-//verif:bound token history (VerifC36Token): <= 2 issued tokens with id and secret of 1..2 characters each, one warming request and one final request with user and password of 0..3 (quick) / 0..4 (thorough) characters each, between them optionally: time passes, token 0 is deleted or deleted and re-issued under the same id with another secret, time passes again (whole seconds, any value below 2^31)
+//verif:bound token history (VerifC36Token): one issued token (thorough: optionally a second one) with id and secret of 1..2 characters each; a warming request with user and password of 0..2 (thorough 0..3) characters each (one obligation per length combination) and a final request with or without credentials, user and password of 0..2 (thorough 0..3) characters each; between them: time passes, then optionally token 0 is deleted, or deleted and re-issued under the same id with another secret, then time passes again (whole seconds, any value below 2^31 each)
 //verif:bound request classes (VerifC36Paths): every URL path of exactly n bytes for n = 0..21 (quick) / 0..26 (thorough), five remote addresses (IPv4 loopback, IPv6 loopback, private IPv4, empty, no port), with or without Basic credentials of 1 character each against one issued token
 //verif:assume characters of ids, secrets, users and passwords are lower-case letters or digits (Create enforces [\w-]+ for ids and produces hex secrets; no ':' so that the Basic-auth split is unambiguous)
 //verif:assume authentication is enabled (disable=false) and loopbackOn has its compiled-in value true
 //verif:assume the paths /dashboard, /dashboard/..., /equity, /equity/... serve static assets and are exempt from authentication by design (comment in Authenticate); the check asserts that nothing else is exempt
-//verif:assume clock: time.Now is a fixed instant for the solver and the real clock in the native replay; the passing of time is simulated by moving the lastLookup of every cache entry into the past; a total age of exactly 300 s (the boundary instant of the cache window) is excluded because the real clock advances between two reads
+//verif:assume clock: for the solver time.Now is a harness clock (whole seconds) that verifC36Pass advances; in the native replay time.Now is the real clock and verifC36Pass instead moves the lastLookup of every cache entry into the past by the same amount (equivalent for a cache that only compares now with lastLookup+5min); a total age of exactly 300 s (the boundary instant of the cache window) is excluded because the real clock advances between two reads
 //verif:assume encoding/json.Unmarshal of a stored token record returns the Token that was marshalled into it (solver: record looked up by buffer identity; native replay: the real JSON decoder on the real record)
 //verif:assume Request.SetBasicAuth / BasicAuth round-trip user and password (solver: kept in a harness variable; native replay: the real header encoder and parser); context.WithValue is cut for the solver
-//verif:outside HTTP header and base64 parsing, IP address text parsing (net.ParseIP is replaced for the solver by a table of the three host strings used; SplitHostPort and IP.IsLoopback are the real code), CredentialStore.Create (crypto/rand, regexp, JSON encoding), LevelDB, concurrent requests (tokenMu)
+//verif:outside HTTP header and base64 parsing, IP address text parsing (net.ParseIP is replaced for the solver by a table of the three host strings used and IP.IsLoopback by a copy that does not read the package variable net.IPv6loopback; SplitHostPort is the real code), CredentialStore.Create (crypto/rand, regexp, JSON encoding), LevelDB, concurrent requests (tokenMu)
 //verif:override time.Now -> verifC36Now
+//verif:override github.com/bytom/bytom/net/http/authn.verifC36Pass -> verifC36PassStub
 //verif:override encoding/json.Unmarshal -> verifC36Unmarshal
 //verif:override (*net/http.Request).SetBasicAuth -> verifC36SetBasicAuth
 //verif:override (*net/http.Request).BasicAuth -> verifC36BasicAuth
 //verif:override context.WithValue -> verifC36WithValue
 //verif:override net.ParseIP -> verifC36ParseIP
-//verif:obligation fn=VerifC36Token args=1,1,3;1,2,3;2,1,3;2,2,3 validate=12
-//verif:obligation fn=VerifC36Token args=1,1,4;1,2,4;2,1,4;2,2,4 tier=thorough secs=3000
+//verif:override (net.IP).IsLoopback -> verifC36IsLoopback
+//verif:obligation fn=VerifC36Token args=1,1,1,1,2,0;2,1,2,1,2,0;1,2,1,2,2,0;1,1,0,2,2,0 secs=900 validate=12
+//verif:obligation fn=VerifC36Token args=1,1,0,0,2,0;1,1,0,1,2,0;1,1,1,0,2,0;1,1,1,2,2,0;1,1,2,0,2,0;1,1,2,1,2,0;1,1,2,2,2,0;1,2,0,0,2,0;1,2,0,1,2,0;1,2,0,2,2,0;1,2,1,0,2,0;1,2,1,1,2,0;1,2,2,0,2,0;1,2,2,1,2,0;1,2,2,2,2,0;2,1,0,0,2,0;2,1,0,1,2,0;2,1,0,2,2,0;2,1,1,0,2,0;2,1,1,1,2,0;2,1,1,2,2,0;2,1,2,0,2,0;2,1,2,2,2,0;2,2,0,0,2,0;2,2,0,1,2,0;2,2,0,2,2,0;2,2,1,0,2,0;2,2,1,1,2,0;2,2,1,2,2,0;2,2,2,0,2,0;2,2,2,1,2,0;2,2,2,2,2,0 secs=900
+//verif:obligation fn=VerifC36Token args=1,1,0,0,3,1;1,1,0,1,3,1;1,1,0,2,3,1;1,1,0,3,3,1;1,1,1,0,3,1;1,1,1,1,3,1;1,1,1,2,3,1;1,1,1,3,3,1;1,1,2,0,3,1;1,1,2,1,3,1;1,1,2,2,3,1;1,1,2,3,3,1;1,1,3,0,3,1;1,1,3,1,3,1;1,1,3,2,3,1;1,1,3,3,3,1;1,2,0,0,3,1;1,2,0,1,3,1;1,2,0,2,3,1;1,2,0,3,3,1;1,2,1,0,3,1;1,2,1,1,3,1;1,2,1,2,3,1;1,2,1,3,3,1;1,2,2,0,3,1;1,2,2,1,3,1;1,2,2,2,3,1;1,2,2,3,3,1;1,2,3,0,3,1;1,2,3,1,3,1;1,2,3,2,3,1;1,2,3,3,3,1;2,1,0,0,3,1;2,1,0,1,3,1;2,1,0,2,3,1;2,1,0,3,3,1;2,1,1,0,3,1;2,1,1,1,3,1;2,1,1,2,3,1;2,1,1,3,3,1;2,1,2,0,3,1;2,1,2,1,3,1;2,1,2,2,3,1;2,1,2,3,3,1;2,1,3,0,3,1;2,1,3,1,3,1;2,1,3,2,3,1;2,1,3,3,3,1;2,2,0,0,3,1;2,2,0,1,3,1;2,2,0,2,3,1;2,2,0,3,3,1;2,2,1,0,3,1;2,2,1,1,3,1;2,2,1,2,3,1;2,2,1,3,3,1;2,2,2,0,3,1;2,2,2,1,3,1;2,2,2,2,3,1;2,2,2,3,3,1;2,2,3,0,3,1;2,2,3,1,3,1;2,2,3,2,3,1;2,2,3,3,3,1 tier=thorough secs=3000
 //verif:obligation fn=VerifC36Paths args=0;1;2;3;4;5;6;7;8;9;10;11;12;13;14;15;16;17;18;19;20;21 validate=10
 //verif:obligation fn=VerifC36Paths args=22;23;24;25;26 tier=thorough
 
@@ -73,7 +76,9 @@ type verifC36Cred struct {
 
 var verifC36Auth verifC36Cred
 
-func verifC36Now() time.Time { return time.Unix(1600000000, 0) }
+var verifC36Clock int64
+
+func verifC36Now() time.Time { return time.Unix(1600000000+verifC36Clock, 0) }
 
 func verifC36Unmarshal(data []byte, v interface{}) error {
 	for i := range verifC36Records {
@@ -108,6 +113,15 @@ func verifC36ParseIP(s string) net.IP {
 	return nil
 }
 
+// same decision as net.IP.IsLoopback without reading the package variable
+// net.IPv6loopback (the engine does not run package net's initialiser)
+func verifC36IsLoopback(ip net.IP) bool {
+	if ip4 := ip.To4(); ip4 != nil {
+		return ip4[0] == 127
+	}
+	return ip.Equal(net.IP{0, 0, 0, 0, 0, 0, 0, 0, 0, 0, 0, 0, 0, 0, 0, 1})
+}
+
 func verifC36WithValue(parent context.Context, key, val interface{}) context.Context {
 	return parent
 }
@@ -120,20 +134,23 @@ func verifC36Issue(db *verifC36DB, id, secret string) {
 	db.Set([]byte(id), data)
 }
 
-func verifC36Alnum(s string) bool {
-	ok := true
-	for i := 0; i < len(s); i++ {
-		c := s[i]
-		ok = ok && ((c >= '0' && c <= '9') || (c >= 'a' && c <= 'z'))
+var verifC36AlnumTab = func() (t [256]bool) {
+	for c := '0'; c <= '9'; c++ {
+		t[c] = true
 	}
-	return ok
-}
+	for c := 'a'; c <= 'z'; c++ {
+		t[c] = true
+	}
+	return
+}()
 
 // verifC36Str returns an arbitrary alphanumeric string of exactly n bytes.
 func verifC36Str(name string, n int) string {
-	s := string(verifBytesN(name, n))
-	verifAssume(verifC36Alnum(s))
-	return s
+	b := verifBytesN(name, n)
+	for _, c := range b {
+		verifAssume(verifC36AlnumTab[c]) // table lookup: no fork
+	}
+	return string(b)
 }
 
 func verifC36HasPrefix(s, p string) bool { return len(s) >= len(p) && s[:len(p)] == p }
@@ -147,8 +164,11 @@ func verifC36Request(path, addr string, c verifC36Cred) *http.Request {
 	return req
 }
 
-// age moves every cache entry d seconds into the past (= d seconds pass).
-func verifC36Age(a *API, d int64) {
+// solver: d seconds pass on the harness clock
+func verifC36PassStub(a *API, d int64) { verifC36Clock += d }
+
+// native replay: d seconds pass = every cache entry moves d seconds into the past
+func verifC36Pass(a *API, d int64) {
 	for k, v := range a.tokenMap {
 		a.tokenMap[k] = tokenResult{lastLookup: v.lastLookup.Add(-time.Duration(d) * time.Second)}
 	}
@@ -163,8 +183,9 @@ type verifC36Token struct {
 // ---------------------------------------------------------------------------
 // token / cache histories
 
-func VerifC36Token(idLen int, secLen int, maxReq int) {
+func VerifC36Token(idLen int, secLen int, u1Len int, p1Len int, maxReq int, second int) {
 	verifC36Records = nil
+	verifC36Clock = 0
 	db := &verifC36DB{m: map[string][]byte{}}
 	store := accesstoken.NewStore(db)
 	api := NewAPI(store, false)
@@ -172,7 +193,7 @@ func VerifC36Token(idLen int, secLen int, maxReq int) {
 	toks := []*verifC36Token{
 		{id: verifC36Str("id0", idLen), secret: verifC36Str("secret0", secLen), live: true},
 	}
-	if verifBool("second.token") {
+	if second != 0 && verifBool("second.token") {
 		t1 := &verifC36Token{id: verifC36Str("id1", 1), secret: verifC36Str("secret1", 1), live: true}
 		verifAssume(t1.id != toks[0].id)
 		toks = append(toks, t1)
@@ -182,9 +203,9 @@ func VerifC36Token(idLen int, secLen int, maxReq int) {
 	}
 
 	// warming request: arbitrary credentials
-	u1 := verifC36Str("user1", verifChoice("user1.len", maxReq+1))
-	p1 := verifC36Str("pw1", verifChoice("pw1.len", maxReq+1))
-	_, err1 := api.Authenticate(verifC36Request("/create-account", "10.0.0.7:4711", verifC36Cred{u1, p1, true}))
+	u1 := verifC36Str("user1", u1Len)
+	p1 := verifC36Str("pw1", p1Len)
+	_, err1 := api.Authenticate(verifC36Request("/create-account", "192.168.1.20:52011", verifC36Cred{u1, p1, true}))
 	verifObserveBool("first.admitted", err1 == nil)
 	warmPair := false
 	for _, t := range toks {
@@ -203,7 +224,7 @@ func VerifC36Token(idLen int, secLen int, maxReq int) {
 	a1 := verifI64("age1")
 	a2 := verifI64("age2")
 	verifAssume(a1 >= 0 && a1 < 1<<31 && a2 >= 0 && a2 < 1<<31 && a1+a2 != 300)
-	verifC36Age(api, a1)
+	verifC36Pass(api, a1)
 	switch verifChoice("event", 3) {
 	case 1:
 		store.Delete(toks[0].id)
@@ -216,14 +237,14 @@ func VerifC36Token(idLen int, secLen int, maxReq int) {
 		verifC36Issue(db, nt.id, nt.secret)
 		toks = append(toks, nt)
 	}
-	verifC36Age(api, a2)
+	verifC36Pass(api, a2)
 	toks[0].deadFor = a2
 
 	// final request
 	hasAuth := verifBool("final.hasauth")
 	u2 := verifC36Str("user2", verifChoice("user2.len", maxReq+1))
 	p2 := verifC36Str("pw2", verifChoice("pw2.len", maxReq+1))
-	_, err2 := api.Authenticate(verifC36Request("/create-account", "10.0.0.7:4711", verifC36Cred{u2, p2, hasAuth}))
+	_, err2 := api.Authenticate(verifC36Request("/create-account", "192.168.1.20:52011", verifC36Cred{u2, p2, hasAuth}))
 	verifObserveBool("final.admitted", err2 == nil)
 
 	entitled := false
@@ -256,6 +277,7 @@ func VerifC36Token(idLen int, secLen int, maxReq int) {
 
 func VerifC36Paths(pathLen int) {
 	verifC36Records = nil
+	verifC36Clock = 0
 	db := &verifC36DB{m: map[string][]byte{}}
 	store := accesstoken.NewStore(db)
 	api := NewAPI(store, false)
